@@ -11,15 +11,23 @@
   guarantees about the change stream (fresh transaction keys; undo restores only spent outputs — the
   C06 fact).  The minimum value and useMapCnt are part of the state and change only in `enable`
   (the code re-reads them only in LoadBalancesFromUtxo), so "the minimum is constant while enabled"
-  holds by construction of `step`.
+  holds by construction of `step` — GIVEN the source facts of `model_matches_source_facts` (regenerated from
+  /repo on every run by go/cmd/gen_c17): only ApplyBalMinVal stores the value in force, only InitConfig and
+  LoadBalancesFromUtxo call it, `common.Reset()` cannot reach it. `load_ignores_config_changes` carries that to
+  config changes landing BETWEEN TWO RECORDS of a running build.
+  Addresses: `Addr` = (sub-index 0..4, payload) is what the index is keyed by; `QAddr` (Model.BalancesAddr) is ANY
+  `btc.BtcAddr` value GetAllUnspent may be asked about (any witness version / program length, any base58 version).
 -/
 import GocoinV.Proofs.C17
 import GocoinV.Proofs.C17Load
 import GocoinV.Proofs.C17Disk
+import GocoinV.Proofs.C17Addr
+import GocoinV.Proofs.C17Cfg
 namespace GocoinV.Props.C17
 open GocoinV.Model.Balances GocoinV.Spec.Balances GocoinV.Proofs.C17
 open GocoinV.Model.BalancesLoad GocoinV.Proofs.C17Load
 open GocoinV.Model.BalancesDisk GocoinV.Proofs.C17Disk
+open GocoinV.Model.BalancesCfg GocoinV.Proofs.C17Cfg
 
 /-- add_preserves (NewUTXO, one output): adding a qualifying coin that is not yet in the set through
     NewUTXO's loop body keeps the index equal to the projection — whatever the record's representation
@@ -87,12 +95,33 @@ theorem balances_eq_projection_keyed (H : Bytes → Nat) (evs : List Ev) (hadm :
     total H s a = sumValues (getAllUnspent H s a) % M64 :=
   getAll_spec a (inv_all_histories H evs hadm) hon
 
-/-- The scriptPubKey of a supported address (type 0..4 with a 20/20/20/32/32-byte payload) is recognised
-    by Script2Idx with exactly the key GetAllUnspent uses for that address. -/
-theorem script_of_address_has_its_key (H : Bytes → Nat) (a : Addr) (hv : a.idx < 5)
+/-- GetAllUnspent's address → (sub-index, key) map, for EVERY address value it accepts (any witness version and
+    program, any base58 version byte; `q.WF` is the Go type's `Hash160 [20]byte`), on either network:
+    * if its branches pick a sub-index and a payload (`addrKey tn q = some a`), then the address's own OutScript() is
+      exactly the standard script that sub-index stores for that payload, the payload has that sub-index's length
+      (20/20/20/32/32), Script2Idx recognises the script under exactly the key the function looks up, and the function
+      reports that record;
+    * otherwise (witness version ≥ 2; version 1 with a program that is not 32 bytes; version 0 with a program that is
+      neither 20 nor 32 bytes; a base58 version of another network) it looks nothing up and returns nothing.
+    In particular an address is never answered from a sub-index whose scripts differ from its own script. -/
+theorem script_of_address_has_its_key (H : Bytes → Nat) (tn : Bool) (q : QAddr) (hw : q.WF) :
+    (∀ a, addrKey tn q = some a →
+      q.outScript = some a.script ∧ a.idx < 5 ∧ a.payload.length = (if a.idx < 3 then 20 else 32) ∧
+      script2idx H a.script = some (a.idx, H a.payload) ∧
+      ∀ s, getAllUnspentQ H tn s q = getAllUnspent H s a ∧ totalQ H tn s q = total H s a) ∧
+    (addrKey tn q = none → ∀ s, getAllUnspentQ H tn s q = [] ∧ totalQ H tn s q = 0) := by
+  refine ⟨fun a h => ?_, fun h s => getAllQ_none h s⟩
+  obtain ⟨hs, hv, hl⟩ := addrKey_spec tn q hw a h
+  exact ⟨hs, hv, hl, script2idx_script H a hv hl, fun s => getAllQ_some h s⟩
+
+/-- Every standard address (type 0..4 with a 20/20/20/32/32-byte payload) IS accepted: its address value on the
+    network in use resolves to its own sub-index and payload (so the five standard forms are not lost by the
+    version / length tests). -/
+theorem standard_address_is_accepted (tn : Bool) (a : Addr) (hv : a.idx < 5)
     (hl : a.payload.length = if a.idx < 3 then 20 else 32) :
-    script2idx H a.script = some (a.idx, H a.payload) :=
-  script2idx_script H a hv hl
+    addrKey tn (a.toQ tn) = some a ∧ (a.toQ tn).WF ∧ (a.toQ tn).outScript = some a.script := by
+  obtain ⟨hk, hw⟩ := addrKey_toQ tn a hv hl
+  exact ⟨hk, hw, (addrKey_spec tn _ hw a hk).1⟩
 
 /-- Central theorem. After any admissible history (connects, disconnects, reorganisations, on/off,
     build-from-populated), while the index is on, for every supported address `a`:
@@ -169,6 +198,37 @@ theorem min_zero_lists_every_output (H : Bytes → Nat) (evs : List Ev) (hadm : 
   refine ((balances_eq_projection_keyed H evs hadm a hon).2.1 _).2 ⟨r, o, hr, ho, ?_, ?_, rfl⟩
   · rw [hmin]; exact Nat.zero_le _
   · rw [hs]; exact script2idx_script H a hv hl
+
+/-- Central theorem for ANY address value (not only the five standard forms). After any admissible history, while
+    the index is on, GetAllUnspent(q) is duplicate-free and reports EXACTLY the unspent outputs of value ≥ min whose
+    script is `q`'s own OutScript() — when the function resolves `q` to a sub-index; and NOTHING when it does not.
+    So no address is ever shown outputs that pay to a different script. (For unresolved addresses — future witness
+    versions — outputs paying to them exist in the set but are not indexed, by design: the right-hand side is empty.)
+    `hHinj`: no 64-bit SipHash collision among the payloads in play, as in `balances_eq_projection_hash_inj`. -/
+theorem balances_eq_projection_any_address (H : Bytes → Nat) (evs : List Ev) (hadm : AdmissibleRun H State.init evs)
+    (tn : Bool) (q : QAddr) (hw : q.WF) (hon : (run H State.init evs).on = true)
+    (hHinj : ∀ a, addrKey tn q = some a → ∀ k r j o p, aget k (run H State.init evs).utxo = some r →
+      outAt r.outs j = some o → scriptForm o.script = some (a.idx, p) → H p = H a.payload → p = a.payload)
+    (hfit : sumValues (getAllUnspentQ H tn (run H State.init evs) q) < M64) :
+    let s := run H State.init evs
+    (getAllUnspentQ H tn s q).Nodup ∧
+    (∀ x, x ∈ getAllUnspentQ H tn s q ↔
+      ∃ a, addrKey tn q = some a ∧ q.outScript = some a.script ∧ Pays s.cfg.min s.utxo a x) ∧
+    totalQ H tn s q = sumValues (getAllUnspentQ H tn s q) := by
+  cases hk : addrKey tn q with
+  | none =>
+    have h0 := getAllQ_none (H := H) hk (run H State.init evs)
+    simp only [h0.1, h0.2]
+    refine ⟨List.nodup_nil, fun x => ⟨fun h => (by cases h), fun h => (by obtain ⟨a, ha, _⟩ := h; cases ha)⟩, by simp [sumValues]⟩
+  | some a =>
+    obtain ⟨hs, hv, hl⟩ := addrKey_spec tn q hw a hk
+    have h1 := getAllQ_some (H := H) hk (run H State.init evs)
+    rw [h1.1] at hfit
+    obtain ⟨hn, hm, ht⟩ := balances_eq_projection_hash_inj H evs hadm a hv hl hon (hHinj a hk) hfit
+    simp only [h1.1, h1.2]
+    refine ⟨hn, fun x => ?_, ht⟩
+    rw [hm x]
+    exact ⟨fun hp => ⟨a, rfl, hs, hp⟩, fun h => by obtain ⟨a', ha', _, hp⟩ := h; cases ha'; exact hp⟩
 
 /-! ### the byte-level load: static decoder (both record formats), abort path
 
@@ -322,6 +382,53 @@ theorem load_serialized_compressed (K : ScriptCompress.KeyOps) (hK : K.Sound) (H
   exact ⟨s', st', h, hz', fun hq => loadFromUtxo_completed (entC K) H tick s s' st st' raw mn um hs hq h,
     fun hoff hq => loadFromUtxo_aborted (entC K) H tick s s' st st' raw mn um hoff hq h⟩
 
+/-! ### configuration changes (Model.BalancesCfg, Gen.WalletCfgFacts) -/
+
+/-- The model's treatment of the two thresholds restated against /repo's CURRENT source (facts regenerated by
+    go/cmd/gen_c17 on every run; this theorem stops compiling when one of them changes): `allBalMinVal` is stored only
+    by ApplyBalMinVal (the value of CFG.AllBalances.MinValue) and loaded only by AllBalMinVal; a store is reachable in
+    package common only from ApplyBalMinVal and InitConfig — NOT from `Reset()`, which the WebUI / TextUI run after
+    every config change; outside package common only wallet.LoadBalancesFromUtxo calls it, once, before its scan
+    loop, behind the WalletON guard; NewUTXO and all_del_utxos compare with the value in force and nothing in
+    client/wallet reads CFG.AllBalances.MinValue; `useMapCnt` is assigned only in InitMaps and LoadBalances, from
+    CFG.AllBalances.UseMapCnt. -/
+theorem model_matches_source_facts :
+    Gen.WalletCfgFacts.minValWriters = ["ApplyBalMinVal"] ∧
+    Gen.WalletCfgFacts.minValStored = ["CFG.AllBalances.MinValue"] ∧
+    Gen.WalletCfgFacts.minValReaders = ["AllBalMinVal"] ∧
+    Gen.WalletCfgFacts.minValReach = ["ApplyBalMinVal", "InitConfig"] ∧
+    Gen.WalletCfgFacts.resetMayWriteMinVal = false ∧
+    Gen.WalletCfgFacts.minValExternalCallers = ["wallet.LoadBalancesFromUtxo"] ∧
+    Gen.WalletCfgFacts.loadGuardedByWalletON = true ∧ Gen.WalletCfgFacts.loadAppliesOnceBeforeScan = true ∧
+    Gen.WalletCfgFacts.newUtxoReadsInForce = true ∧ Gen.WalletCfgFacts.allDelReadsInForce = true ∧
+    Gen.WalletCfgFacts.walletReadsCfgMinValue = [] ∧
+    Gen.WalletCfgFacts.useMapCntWriters = ["InitMaps", "LoadBalances"] ∧
+    Gen.WalletCfgFacts.useMapCntSources = ["int(common.Get(&common.CFG.AllBalances.UseMapCnt))"] :=
+  source_facts
+
+/-- A config change landing DURING the build of the index is ignored until the next build: for ANY schedule `chg` of
+    `CFG.AllBalances.MinValue = v; common.Reset()` events between the records of a running LoadBalancesFromUtxo (from
+    the tick callback or another goroutine; WalletON is false all that time), the load behaves exactly as without
+    them — same maps, same on flag, and the minimum in force afterwards is the one applied before the scan. Hence
+    every record of the scan is filtered with ONE threshold, and `load_bytes_eq_enable`, `load_bytes_builds_projection`,
+    `load_serialized_*` hold verbatim for `loadFromUtxoR`. Rests on `resetMayWriteMinVal = false` (generated). -/
+theorem load_ignores_config_changes (P : Parser) (H : Bytes → Nat) (tick : Nat → Bool) (chg : Nat → Option Nat)
+    (s : State) (st : Static) (raw : List Bytes) (mn um : Nat) :
+    loadFromUtxoR P H tick chg s st raw mn um = loadFromUtxo P H tick s st raw mn um :=
+  loadFromUtxoR_eq P H tick chg s st raw mn um
+
+/-- Build-from-populated with config changes during the scan: after a completed load the index is on, is the
+    projection of the unspent set under the minimum IN FORCE afterwards, and that minimum is the one configured when
+    the build started. -/
+theorem load_with_config_changes_builds_projection (P : Parser) (H : Bytes → Nat) (tick : Nat → Bool)
+    (chg : Nat → Option Nat) (s s' : State) (st st' : Static)
+    (raw : List Bytes) (mn um : Nat) (hi : Inv H s) (hoff : s.on = false) (hs : Stored P raw s.utxo)
+    (hq : ∀ k, 1 ≤ k → k ≤ raw.length → tick k = false)
+    (h : loadFromUtxoR P H tick chg s st raw mn um = some (s', st')) :
+    s'.on = true ∧ s'.cfg.min = mn ∧ s'.utxo = s.utxo ∧ Rel s'.cfg H s'.bal (coinsOf s'.utxo) := by
+  rw [load_ignores_config_changes] at h
+  exact load_bytes_builds_projection P H tick s s' st st' raw mn um hi hoff hs hq h
+
 /-! ### the disk cache of the index (wallet/disk.go, Model.BalancesDisk) -/
 
 /-- `btc.ReadVarInt(btc.WriteVarInt(n)) = n` for every uint64 (base-128 VARINT with the uint64 wrap explicit),
@@ -375,6 +482,19 @@ example : total exH (run exH State.init exEvs) exAddr = 10 := by decide +kernel
 example : sumValues (getAllUnspent exH (run exH State.init exEvs) exAddr) < M64 := by decide +kernel
 example : exAddr.idx < 5 ∧ exAddr.payload.length = (if exAddr.idx < 3 then 20 else 32) := by decide +kernel
 example : script2idx exH exAddr.script = some (2, 20) := by decide +kernel
+/-! any address value: the standard P2WPKH address resolves to (2, program); witness v2/32, v1/20, v16/20, v0/21 and
+    a base58 address of the other network resolve to nothing even when their program equals a funded address's -/
+example : addrKey true (.segwit 0 exAddr.payload) = some exAddr ∧ (QAddr.segwit 0 exAddr.payload).outScript = some exScr := by decide +kernel
+example : addrKey true (.segwit 2 (List.replicate 32 1)) = none ∧ addrKey true (.segwit 1 exAddr.payload) = none ∧
+    addrKey true (.segwit 16 exAddr.payload) = none ∧ addrKey true (.segwit 0 (List.replicate 21 1)) = none ∧
+    addrKey true (.base58 0 exAddr.payload) = none ∧ addrKey false (.base58 0 exAddr.payload) = some ⟨0, exAddr.payload⟩ := by decide +kernel
+example : getAllUnspentQ exH true (run exH State.init exEvs) (.segwit 0 exAddr.payload) =
+    [{ txid := List.replicate 32 7, vout := 0, value := 10, minedAt := 5, coinbase := false }] ∧
+    getAllUnspentQ exH true (run exH State.init exEvs) (.segwit 1 exAddr.payload) = [] := by decide +kernel
+example : (QAddr.segwit 1 exAddr.payload).outScript = some ([0x51, 0x14] ++ exAddr.payload) ∧
+    (QAddr.segwit 16 exAddr.payload).outScript = some ([0x60, 0x14] ++ exAddr.payload) ∧
+    (QAddr.segwit 17 exAddr.payload).outScript = none ∧ (QAddr.base58 7 exAddr.payload).outScript = none := by decide +kernel
+example : (QAddr.base58 111 exAddr.payload).WF := by show exAddr.payload.length = 20; decide +kernel
 example : Inv exH State.init := inv_init exH
 example : Rel { min := 0, useMapCnt := 0 } exH [] (fun _ => none) := rel_empty _ _
 example : qual { min := 5, useMapCnt := 2 } exH exOut0 (2, 20) := by
@@ -429,6 +549,11 @@ example : Stored entU [bRaw2, bRaw1] bUtxo.utxo :=
 example : (loadFromUtxo entU exH (fun _ => false) bUtxo (Static.init 4) [bRaw2, bRaw1] 5 2).isSome = true := by decide +kernel
 example : (loadFromUtxo entU exH (fun n => n == 1) bUtxo (Static.init 4) [bRaw2, bRaw1] 5 2).map (fun p => (p.1.on, p.1.bal)) =
     some (false, []) := by decide +kernel
+
+/-! config change during the load: after the first of two records the config gets MinValue 8 (> the 7 of the second
+    record's output) and Reset() runs: both records are still filtered with the minimum 5 applied before the scan -/
+example : (loadFromUtxoR entU exH (fun _ => false) (fun n => if n = 1 then some 8 else none) bUtxo (Static.init 4) [bRaw2, bRaw1] 5 2).map
+    (fun p => (p.1.on, p.1.cfg.min, p.1.bal.map (fun kb => kb.2.value))) = some (true, 5, [14]) := by decide +kernel
 
 /-! disk cache: a list-layout record and a record that comes back in the map layout -/
 def dBal1 : Bal := { value := 150000, unsp := [(List.replicate 8 3, 1)], isMap := false }
